@@ -355,13 +355,13 @@ theorem toItem_ok (t : ETree) (hs : small t = true) : (toItem t).ok = true := by
     simp only [small, Bool.and_eq_true, decide_eq_true_eq] at hs
     simp only [toItem]
     split
-    · simp [Item.ok, toItems_ok xs hs.2]
+    · simp [Item.ok, toItems_ok xs hs.2, toItems_length, hs.1]
     · simp [Item.ok, toItems_ok xs hs.2, toItems_length, minW_fits' _ hs.1, hs.1]
   | .obj len bt ms =>
     simp only [small, Bool.and_eq_true, decide_eq_true_eq] at hs
     simp only [toItem]
     split
-    · simp [Item.ok, toMems_ok ms hs.2]
+    · simp [Item.ok, toMems_ok ms hs.2, toMems_length, hs.1]
     · simp [Item.ok, toMems_ok ms hs.2, toMems_length, minW_fits' _ hs.1, hs.1]
 theorem toItems_ok (xs : List ETree) (hs : smallList xs = true) : okList (toItems xs) = true := by
   match xs with
